@@ -358,5 +358,5 @@ def replay(ctx, case):
     check_case(ctx, case)
 
 
-SUBS = [Sub("convert", run, replay, quick=700, thorough=160000,
+SUBS = [Sub("convert", run, replay, quick=700, thorough=100000,
             min_per_shard=10)]
